@@ -59,6 +59,12 @@ pub enum Kind {
     /// first stage of a pipeline: `io ... REDIRS | relay 99` (runs in a child; what
     /// it writes to descriptor 1 reaches the shell's stdout through the pipe)
     PipeFirst,
+    /// a built-in / a function with an assignment prefix whose value is a
+    /// command substitution: `aK=$(io t:pK) io ... REDIRS`. The redirections are
+    /// performed before the assignment is expanded, so the substitution sees
+    /// the redirected descriptors (except 1, its own pipe)
+    BuiltinAssign,
+    FuncAssign,
 }
 
 #[derive(Clone, Debug, Serialize, Deserialize, PartialEq)]
@@ -176,7 +182,17 @@ pub fn generate(rng: &mut Rng, tier: Tier) -> Case {
         let last = i + 1 == n;
         let kind = match rng.below(if last { 24 } else { 21 }) {
             0..=1 => Kind::Builtin,
-            2 => *rng.pick(&[Kind::CaseC, Kind::WhileC, Kind::FuncDefRedir, Kind::PipeLast, Kind::CmdSubst, Kind::PipeFirst]),
+            2 => *rng.pick(&[
+                Kind::CaseC,
+                Kind::WhileC,
+                Kind::FuncDefRedir,
+                Kind::PipeLast,
+                Kind::CmdSubst,
+                Kind::PipeFirst,
+                Kind::BuiltinAssign,
+                Kind::FuncAssign,
+                Kind::FuncAssign,
+            ]),
             3..=4 => Kind::Dot,
             5..=6 => Kind::Func,
             7..=8 => Kind::Brace,
@@ -290,6 +306,8 @@ pub fn render(c: &Case) -> String {
                 let line = match kind {
                     Kind::Builtin => format!("io {o} {rs}"),
                     Kind::Func => format!("fio {o} {rs}"),
+                    Kind::BuiltinAssign => format!("a{k}=$(io t:p{k}) io {o} {rs}"),
+                    Kind::FuncAssign => format!("a{k}=$(io t:p{k}) fio {o} {rs}"),
                     Kind::Brace => format!("{{ io {o}; }} {rs}"),
                     Kind::IfC => format!("if rc 0; then io {o}; fi {rs}"),
                     Kind::ForC => format!("for i in 1; do io {o}; done {rs}"),
@@ -853,6 +871,16 @@ fn check_invariants(c: &Case, obs: &Observed) -> Option<Viol> {
     None
 }
 
+fn kinds_of(c: &Case) -> Vec<Kind> {
+    c.items
+        .iter()
+        .filter_map(|i| match i {
+            Item::Cmd { kind, .. } => Some(*kind),
+            _ => None,
+        })
+        .collect()
+}
+
 /// Full comparison with the model (fault-free runs only).
 fn check_model(c: &Case, exp: &Expect, obs: &Observed) -> Option<Viol> {
     let snaps: Vec<Snap> = obs
@@ -942,6 +970,39 @@ fn check_model(c: &Case, exp: &Expect, obs: &Observed) -> Option<Viol> {
                 ));
             }
             (None, None) => {}
+        }
+        if matches!(kinds_of(c).get(i), Some(Kind::BuiltinAssign | Kind::FuncAssign)) {
+            // the command substitution of the assignment prefix runs after the
+            // redirections have been performed (and not at all if one fails)
+            let p = snaps.iter().find(|s| s.label == format!("p{k}"));
+            match (&e.during, p) {
+                (Some(model), Some(s)) => {
+                    let open: BTreeSet<i32> = s.fds.keys().filter(|f| **f < 10 && **f != 1).copied().collect();
+                    let want: BTreeSet<i32> = model.keys().filter(|f| **f < 10 && **f != 1).copied().collect();
+                    if open != want || !s.fds.contains_key(&1) {
+                        return Some((
+                            "assignment-order".into(),
+                            "assignment-order".into(),
+                            format!(
+                                "command {k}: the command substitution in the assignment prefix sees descriptors {:?} (1 is its pipe), but the command's redirections give {want:?}: redirections are performed before assignments are expanded\nobserved table: {}",
+                                open,
+                                table_str(s)
+                            ),
+                        ));
+                    }
+                }
+                (None, Some(_)) => {
+                    return Some((
+                        "assignment-order".into(),
+                        "assignment-order".into(),
+                        format!("command {k}: the assignment prefix was expanded although a redirection of the command must fail first"),
+                    ));
+                }
+                (Some(_), None) => {
+                    return Some(("not-run".into(), "not-run".into(), format!("command {k}: the assignment prefix was not expanded")));
+                }
+                (None, None) => {}
+            }
         }
         if e.exits {
             // the shell must have exited: no later snapshot
